@@ -14,6 +14,10 @@ theorem rescuePerMille_eq : rescueRecordRetryTtlPercentagePerMille = 100 := rfl
 theorem expiration_time (c t p : Int) : Dns.get_expiration_time c t p = c + p * t * 10 := by
   simp [Dns.get_expiration_time]
 
+/-- the cache's expiry test (`DNSRecord.is_expired`, the test C05's purge and the browser's `Removed` use): the full TTL has elapsed -/
+theorem is_expired_iff (c t n : Int) : Dns.is_expired c t n = true ↔ c + 1000 * t ≤ n := by
+  simp [Dns.is_expired]
+
 theorem reschedule_keep_iff (m r w : Int) :
     Browser.reschedule_keep m r w = true ↔ (-m ≤ r - w ∧ r - w ≤ m) := by
   simp [Browser.reschedule_keep]
